@@ -1,6 +1,7 @@
 pub mod opcmp;
 pub mod c03;
 pub mod c04;
+pub mod c04r;
 pub mod c05;
 pub mod c06;
 pub mod c07;
@@ -35,6 +36,7 @@ pub fn registry() -> Vec<Monitor> {
   let mut v = vec![
     mon!("c03", c03),
     mon!("c04", c04),
+    mon!("c04r", c04r),
     mon!("c05", c05),
     mon!("c06", c06),
     mon!("c07", c07),
